@@ -502,8 +502,14 @@ func (e *Env) Finish() int {
 	}
 	ev := evidence{e.ID, e.Tier, e.Seed, "model_checking", cov, e.Assume, time.Since(e.Start).Seconds(), len(viol)}
 	b, _ := json.MarshalIndent(ev, "", " ")
-	os.MkdirAll(filepath.Join(Root, "evidence"), 0o755)
-	if err := os.WriteFile(filepath.Join(Root, "evidence", e.ID+".json"), b, 0o644); err != nil {
+	// evidence/<id>.json describes runs on /repo's tree; a run against another checkout (VERIF_REPO: mutants, seeded
+	// changes) leaves its evidence in its own scratch directory
+	evdir := filepath.Join(Root, "evidence")
+	if os.Getenv("VERIF_REPO") != "" && e.Out != "" {
+		evdir = e.Out
+	}
+	os.MkdirAll(evdir, 0o755)
+	if err := os.WriteFile(filepath.Join(evdir, e.ID+".json"), b, 0o644); err != nil {
 		fmt.Println("INFRA cannot write evidence:", err)
 		if code == 0 {
 			code = 2
